@@ -194,5 +194,6 @@ def constant_fold_unary_op(op: str, value: ConstantValue) -> int | float | None:
     elif op == "~" and isinstance(value, int):
         return ~value
     elif op == "+" and isinstance(value, (int, float)):
-        return value
+        # Not just 'value': +True is 1.
+        return +value
     return None
